@@ -75,7 +75,17 @@ Named == {
 
 \* t: bytes of a text node (attr = FALSE) or of an attribute value (attr = TRUE); stop: the raw
 \* bytes that end the text / value in that syntactic position (so cannot be part of it).
-RECURSIVE DecHTML(_, _, _, _)
+\* (DecNamedHit / DecNamed only split DecHTML so that the set of matching names and the chosen name
+\*  are operator ARGUMENTS: TLC computes an argument once, a LET-bound value at each of its uses.)
+RECURSIVE DecHTML(_, _, _, _), DecNamed(_, _, _, _, _), DecNamedHit(_, _, _, _, _)
+DecNamedHit(t, i, attr, stop, n) ==                       \* n: the longest matching entry of Named, name at i + 1
+  IF attr /\ n[1][Len(n[1])] # 59 /\ i + 1 + Len(n[1]) <= Len(t)
+          /\ (t[i + 1 + Len(n[1])] = 61 \/ IsAlnum(t[i + 1 + Len(n[1])]))
+  THEN <<38>> \o DecHTML(t, i + 1, attr, stop)            \* "for historical reasons" not a reference
+  ELSE EncodeRune(n[2]) \o DecHTML(t, i + 1 + Len(n[1]), attr, stop)
+DecNamed(t, i, attr, stop, hits) ==                       \* named reference: longest match
+  IF hits = {} THEN <<38>> \o DecHTML(t, i + 1, attr, stop)
+  ELSE DecNamedHit(t, i, attr, stop, CHOOSE n \in hits : \A m \in hits : Len(m[1]) <= Len(n[1]))
 DecHTML(t, i, attr, stop) ==
   IF i > Len(t) THEN <<>>
   ELSE IF t[i] \in stop THEN FAIL
@@ -87,15 +97,8 @@ DecHTML(t, i, attr, stop) ==
             IN IF r[2] = st THEN <<38>> \o DecHTML(t, i + 1, attr, stop)      \* no digit: stays text
                ELSE EncodeRune(NumRefValue(r[1])) \o                          \* ';' optional (parse error, still decoded)
                     DecHTML(t, IF r[2] <= Len(t) /\ t[r[2]] = 59 THEN r[2] + 1 ELSE r[2], attr, stop)
-  ELSE IF i + 1 <= Len(t) /\ IsAlnum(t[i + 1])                               \* named reference: longest match
-       THEN LET hits == {n \in Named : HasPrefixAt(t, n[1], i + 1)} IN
-            IF hits = {} THEN <<38>> \o DecHTML(t, i + 1, attr, stop)
-            ELSE LET n == CHOOSE n \in hits : \A m \in hits : Len(m[1]) <= Len(n[1])
-                     e == i + 1 + Len(n[1])
-                     semi == n[1][Len(n[1])] = 59
-                 IN IF attr /\ ~semi /\ e <= Len(t) /\ (t[e] = 61 \/ IsAlnum(t[e]))
-                    THEN <<38>> \o DecHTML(t, i + 1, attr, stop)              \* "for historical reasons" not a reference
-                    ELSE EncodeRune(n[2]) \o DecHTML(t, e, attr, stop)
+  ELSE IF i + 1 <= Len(t) /\ IsAlnum(t[i + 1])
+       THEN DecNamed(t, i, attr, stop, {n \in Named : n[1][1] = t[i + 1] /\ HasPrefixAt(t, n[1], i + 1)})
   ELSE <<38>> \o DecHTML(t, i + 1, attr, stop)
 
 (* ---------- ECMAScript string literal body (between quotes q) ---------- *)
@@ -284,55 +287,70 @@ Ok(ctx, s, out) ==
          LET d == Decode(ctx, out) IN ~IsFail(d) /\ Match(Kind(ctx), d, s \o TailOf(ctx))
 
 (* ---------- several rendering steps in ONE URL attribute ---------- *)
-\* A URL program is the content of one double-quoted URL attribute (href="...") of a template: a
+\* A URL program is the content of one double-quoted URL attribute of a template - href="..." (one
+\* URL) or srcset="..." (set = TRUE: a list of "URL descriptor" candidates separated by commas) - as a
 \* sequence of segments  [k |-> "t", b |-> literal template text (HTML source bytes)]  and
 \* [k |-> "v", b |-> the string shown there by {{ x }}].  The statement quantifies over strings
 \* "shown in a URL query value"; segment j is such a QUERY VALUE SLOT when
 \*   - it is a value directly preceded by literal text, and
-\*   - the URL text to its left (literal text with its character references decoded, the values to
-\*     its left as they are) has a '?', has no '#' (not in the fragment), and ends with
+\*   - the text of the URL to its left (literal text with its character references decoded, the
+\*     values to its left as they are; in a srcset: what follows the last white space, a URL of a
+\*     srcset has none) has a '?', has no '#' (not in the fragment), and ends with
 \*     sep K '='  with sep one of '?' '&' and K a letter: the slot is the value of the parameter K.
 \* (A value elsewhere - path position, a piece of URL that itself brings "?a=b" - is not in the
 \* statement's list and is not judged here; see url_path_* above.)  To find the slot in the rendered
 \* URL without assuming anything about what the renderer does to the text around it (scriggo, for
 \* instance, turns the '?' of a literal "?q=" into '&' when a value to its left already brought a
 \* query), the slot is located by its parameter name: it is judged when "sep K =" occurs exactly
-\* once in the whole symbolic URL (otherwise the reference is undefined for it: skipped, counted).
+\* once in the whole symbolic attribute value (otherwise the reference is undefined for it: skipped,
+\* counted).
 TSeg(b) == [k |-> "t", b |-> b]
 VSeg(b) == [k |-> "v", b |-> b]
-RECURSIVE SymFrom(_, _, _)
-SymFrom(segs, i, j) ==                                  \* symbolic URL text of segments i..j-1
-  IF i >= j THEN <<>>
-  ELSE (IF segs[i].k = "t" THEN DecHTML(segs[i].b, 1, TRUE, {34}) ELSE segs[i].b) \o SymFrom(segs, i + 1, j)
-Sym(segs) == SymFrom(segs, 1, Len(segs) + 1)
+\* (D, S, L, U, P below are operator arguments on purpose: TLC computes an argument once)
+SegText(sg) == IF sg.k = "t" THEN DecHTML(sg.b, 1, TRUE, {34}) ELSE sg.b
+RECURSIVE SegTexts(_, _)
+SegTexts(segs, i) == IF i > Len(segs) THEN <<>> ELSE <<SegText(segs[i])>> \o SegTexts(segs, i + 1)   \* D: the text of each segment
+RECURSIVE CatUpTo(_, _, _)
+CatUpTo(D, i, j) == IF i >= j THEN <<>> ELSE D[i] \o CatUpTo(D, i + 1, j)      \* symbolic text of segments i..j-1
+Sym(segs) == CatUpTo(SegTexts(segs, 1), 1, Len(segs) + 1)
 KeyPlaces(t, K) == {p \in 1..(Len(t) - 2) : t[p] \in {63, 38} /\ t[p + 1] = K /\ t[p + 2] = 61}
-IsSlotLeft(L) == /\ Len(L) >= 3 /\ L[Len(L)] = 61 /\ IsAlpha(L[Len(L) - 1]) /\ L[Len(L) - 2] \in {63, 38}
+AfterText(segs, j) == segs[j].k = "v" /\ j > 1 /\ segs[j - 1].k = "t"
+RECURSIVE LastWs(_, _)
+LastWs(L, i) == IF i = 0 THEN 0 ELSE IF IsSpace(L[i]) THEN i ELSE LastWs(L, i - 1)
+CurUrl(L, set) == IF set THEN Sub(L, LastWs(L, Len(L)) + 1, Len(L)) ELSE L
+IsSlotLeft(L) == /\ Len(L) >= 3 /\ ~IsFail(L)
+                 /\ L[Len(L)] = 61 /\ IsAlpha(L[Len(L) - 1]) /\ L[Len(L) - 2] \in {63, 38}
                  /\ \E k \in 1..(Len(L) - 2) : L[k] = 63
                  /\ \A k \in 1..Len(L) : L[k] # 35
-IsSlot(segs, j) == /\ segs[j].k = "v" /\ j > 1 /\ segs[j - 1].k = "t"
-                   /\ ~IsFail(SymFrom(segs, 1, j)) /\ IsSlotLeft(SymFrom(segs, 1, j))
-SlotKey(segs, j) == LET L == SymFrom(segs, 1, j) IN L[Len(L) - 1]
-Judged(segs, j) == /\ IsSlot(segs, j)
-                   /\ ~IsFail(Sym(segs))
-                   /\ \A p, p2 \in KeyPlaces(Sym(segs), SlotKey(segs, j)) : p = p2
-JudgedSlots(segs) == {j \in 1..Len(segs) : Judged(segs, j)}
-\* the value of the (first) parameter K of the URL U is the text from after "sep K =" up to the next
-\* '&' (next parameter), '#' (fragment) or the end; percent-decoded (both readings of '+', as for
+IsSlot(segs, set, j) == AfterText(segs, j) /\ IsSlotLeft(CurUrl(CatUpTo(SegTexts(segs, 1), 1, j), set))
+\* S: the whole symbolic attribute value, L: the symbolic text to the left of the slot (its last but one byte is K)
+JudgedL(S, L, set) == IsSlotLeft(CurUrl(L, set)) /\ ~IsFail(S) /\ \A p, p2 \in KeyPlaces(S, L[Len(L) - 1]) : p = p2
+JudgedD(segs, set, D, S, j) == AfterText(segs, j) /\ JudgedL(S, CatUpTo(D, 1, j), set)
+JudgedSlotsD(segs, set, D) == {j \in 1..Len(segs) : JudgedD(segs, set, D, CatUpTo(D, 1, Len(D) + 1), j)}
+JudgedSlots(segs, set) == JudgedSlotsD(segs, set, SegTexts(segs, 1))
+\* the value of the (first) parameter K in the rendered attribute value U is the text from after
+\* "sep K =" up to the next '&' (next parameter), '#' (fragment) or the end - in a srcset also up to
+\* white space (end of the URL), less the commas at the end of the URL (HTML "parse a srcset
+\* attribute": they separate the candidates); percent-decoded (both readings of '+', as for
 \* url_query_dq) it must be the string shown in the slot
-RECURSIVE ExtEnd(_, _)
-ExtEnd(U, i) == IF i > Len(U) \/ U[i] \in {38, 35} THEN i ELSE ExtEnd(U, i + 1)
-SlotOk(U, K, s) ==
-  LET P == KeyPlaces(U, K) IN
-  /\ P # {}
-  /\ LET p == CHOOSE x \in P : \A y \in P : x <= y
-         ext == Sub(U, p + 3, ExtEnd(U, p + 3) - 1)
-     IN PctDec(ext, 1, FALSE) = s \/ PctDec(ext, 1, TRUE) = s
-\* OkProg(segs, out): out = the rendered attribute value (between the quotes)
-OkProg(segs, out) ==
-  LET U == DecHTML(out, 1, TRUE, {34}) IN
+RECURSIVE ExtEnd(_, _, _)
+ExtEnd(U, i, set) == IF i > Len(U) \/ U[i] \in {38, 35} \/ (set /\ IsSpace(U[i])) THEN i ELSE ExtEnd(U, i + 1, set)
+RECURSIVE StripCommas(_, _)
+StripCommas(x, n) == IF n > 0 /\ x[n] = 44 THEN StripCommas(x, n - 1) ELSE Sub(x, 1, n)
+UrlEnd(x, set, atEnd) == IF set /\ atEnd THEN StripCommas(x, Len(x)) ELSE x
+ValOk(ext, s) == PctDec(ext, 1, FALSE) = s \/ PctDec(ext, 1, TRUE) = s
+MinOf(P) == CHOOSE x \in P : \A y \in P : x <= y
+\* (the commas are stripped only where the URL ends: at white space or at the end of the attribute)
+ExtOf(U, st, e, set) == UrlEnd(Sub(U, st, e - 1), set, e > Len(U) \/ IsSpace(U[e]))
+SlotOkP(U, P, s, set) == P # {} /\ ValOk(ExtOf(U, MinOf(P) + 3, ExtEnd(U, MinOf(P) + 3, set), set), s)
+SlotOk(U, K, s, set) == SlotOkP(U, KeyPlaces(U, K), s, set)
+CheckSlot(S, U, L, s, set) == JudgedL(S, L, set) => SlotOk(U, L[Len(L) - 1], s, set)
+OkProgD(segs, set, D, S, U) ==
   /\ ~IsFail(U)
-  /\ \A j \in JudgedSlots(segs) : SlotOk(U, SlotKey(segs, j), segs[j].b)
-
+  /\ \A j \in 1..Len(segs) : AfterText(segs, j) => CheckSlot(S, U, CatUpTo(D, 1, j), segs[j].b, set)
+OkProgT(segs, set, D, U) == OkProgD(segs, set, D, CatUpTo(D, 1, Len(D) + 1), U)
+\* OkProg(segs, set, out): out = the rendered attribute value (between the quotes)
+OkProg(segs, set, out) == OkProgT(segs, set, SegTexts(segs, 1), DecHTML(out, 1, TRUE, {34}))
 
 (* ======================================================================================= *)
 (* (ii) IMPLEMENTATION-SHAPED MODEL of internal/runtime/escapers.go (+ dispatch of renderer.go) *)
@@ -470,16 +488,27 @@ Model(ctx, s, hi) ==
     [] ctx = "url_query_dq" -> QueryEscape(UrlPre(s))              \* r.query set by the text "/p?q="
     [] ctx = "url_path_dq"  -> PathEscape(UrlPre(s), TRUE)
     [] ctx = "url_path_unq" -> PathEscape(UrlPre(s), FALSE)
-\* ---- renderer.Text / renderer.showInURL: the steps of ONE URL attribute (not srcset: isSet = false).
+\* ---- renderer.Text / renderer.showInURL: the steps of ONE URL attribute; set = the attribute is srcset (isSet).
 \*      st = [q |-> r.query, rq |-> r.removeQuestionMark, am |-> r.addAmpersand, w |-> bytes written]
+\*      fix = FALSE: the code as found.  In a srcset, a text with a comma only does r.query = false:
+\*      removeQuestionMark / addAmpersand of the URL before the comma stay set, and a '?' that follows the
+\*      comma in the same text is not seen - the values of the next URL are then escaped as path.
+\*      fix = TRUE: the comma starts a new URL (flags cleared, the text after the last comma is examined
+\*      for "?#").  Both variants are model-checked.
 Amp == <<38, 97, 109, 112, 59>>                                             \* "&amp;"
 RStart == [q |-> FALSE, rq |-> FALSE, am |-> FALSE, w |-> <<>>]            \* endURL() before the attribute
-RText(st, txt) ==
-  IF st.q                                                                   \* else if r.query
+RECURSIVE LastComma(_, _)
+LastComma(txt, i) == IF i = 0 THEN 0 ELSE IF txt[i] = 44 THEN i ELSE LastComma(txt, i - 1)
+HasQH(txt, from) == \E k \in from..Len(txt) : txt[k] \in {63, 35}           \* bytes.ContainsAny(txt[from-1:], "?#")
+RText(st, txt, set, fix) ==
+  IF set /\ LastComma(txt, Len(txt)) > 0                                    \* isSet && bytes.ContainsRune(txt, ',')
+  THEN IF fix THEN [q |-> HasQH(txt, LastComma(txt, Len(txt)) + 1), rq |-> FALSE, am |-> FALSE, w |-> st.w \o txt]
+       ELSE [st EXCEPT !.q = FALSE, !.w = st.w \o txt]
+  ELSE IF st.q                                                              \* else if r.query
   THEN LET t1 == IF st.rq /\ txt[1] = 63 THEN Sub(txt, 2, Len(txt)) ELSE txt            \* txt = txt[1:]
            w1 == IF st.am /\ Len(t1) > 0 /\ t1[1] # 38 THEN st.w \o Amp ELSE st.w
        IN [q |-> TRUE, rq |-> FALSE, am |-> FALSE, w |-> w1 \o t1]
-  ELSE [st EXCEPT !.q = \E k \in 1..Len(txt) : txt[k] \in {63, 35}, !.w = st.w \o txt]   \* bytes.ContainsAny(txt, "?#")
+  ELSE [st EXCEPT !.q = HasQH(txt, 1), !.w = st.w \o txt]
 RShow(st, v, quoted) ==
   LET s == UrlPre(v) IN
   IF st.q
@@ -491,9 +520,11 @@ RShow(st, v, quoted) ==
        THEN [q |-> TRUE, rq |-> TRUE, am |-> IF s[Len(s)] \notin {38, 63} THEN TRUE ELSE st.am,
              w |-> st.w \o PathEscape(s, quoted)]
        ELSE [st EXCEPT !.w = st.w \o PathEscape(s, quoted)]
-RECURSIVE RSteps(_, _, _)
-RSteps(segs, i, st) ==
+RECURSIVE RSteps(_, _, _, _, _)
+RSteps(segs, i, st, set, fix) ==
   IF i > Len(segs) THEN st
-  ELSE RSteps(segs, i + 1, IF segs[i].k = "t" THEN RText(st, segs[i].b) ELSE RShow(st, segs[i].b, TRUE))
-ModelProg(segs) == RSteps(segs, 1, RStart).w
+  ELSE RSteps(segs, i + 1, IF segs[i].k = "t" THEN RText(st, segs[i].b, set, fix) ELSE RShow(st, segs[i].b, TRUE), set, fix)
+ModelProg(segs, set, fix) == RSteps(segs, 1, RStart, set, fix).w
+\* a literal text with a comma followed by more of the attribute: where the two variants can differ
+CommaLit(segs) == \E i \in 1..(Len(segs)) : segs[i].k = "t" /\ LastComma(segs[i].b, Len(segs[i].b)) > 0
 =============================================================================
